@@ -129,8 +129,29 @@ def translate():
         bn[kd] = '0' if 'off' not in kws else t2.Expr({}, 'nat', sub=lambda ex, n: shp[t2.src(n)] if t2.src(n) in shp else (_ for _ in ()).throw(TranslateError('offset term ' + t2.src(n)))).tr(kws['off'])
     if bn['nodal'] != '0':
         raise TranslateError('DofsView.nodal has an offset')
-    # _expand_facets
+    # with_boundaries / with_subdomains: {**old, **new} (the later definition of a name wins)
+    mtree = t2.parse('skfem/mesh/mesh.py')
+    wb = t2.only([x for x in t2.find_def(mtree, 'with_boundaries', 'Mesh').body if isinstance(x, ast.Return)], 'with_boundaries return')
+    _expect(wb.value, 'replace(self, _boundaries={**({} if self._boundaries is None else self._boundaries), '
+            '**{name: self.facets_satisfying(test_or_set, boundaries_only) if callable(test_or_set) else test_or_set '
+            'for name, test_or_set in boundaries.items()}})', 'Mesh.with_boundaries')
+    ws = t2.only([x for x in t2.find_def(mtree, 'with_subdomains', 'Mesh').body if isinstance(x, ast.Return)], 'with_subdomains return')
+    _expect(ws.value, 'replace(self, _subdomains={**({} if self._subdomains is None else self._subdomains), '
+            '**{name: self.elements_satisfying(test) if callable(test) else test for name, test in subdomains.items()}})',
+            'Mesh.with_subdomains')
+    # normalize_facets / normalize_elements / normalize_nodes: collection branch = guard for the empty collection, then
+    # np.unique(np.concatenate([recursive calls]))
     mt = t2.parse('skfem/mesh/mesh.py')
+    for fn, arg, types in (('normalize_facets', 'facets', '(tuple, list, set)'), ('normalize_elements', 'elements', '(tuple, list, set)'),
+                           ('normalize_nodes', 'nodes', '(list, set)')):
+        f = t2.find_def(mt, fn, 'Mesh')
+        br = [n for n in ast.walk(f) if isinstance(n, ast.If) and t2.src(n.test) == f'isinstance({arg}, {types})']
+        body = [t2.src(x) for x in t2.only(br, fn + ' collection branch').body]
+        want = [f'if len({arg}) == 0:\n    return np.array([], dtype=np.int32)',
+                f'return np.unique(np.concatenate([self.{fn}({arg[0]}) for {arg[0]} in {arg}]))']
+        if body != want:
+            raise TranslateError(f'{fn} collection branch: ' + repr(body)[:300])
+    # _expand_facets
     f = t2.find_def(mt, '_expand_facets', 'Mesh')
     body = [t2.src(s) for s in f.body if not (isinstance(s, ast.Expr) and isinstance(s.value, ast.Constant))]
     want = ['vertices = np.unique(self.facets[:, ix].flatten())',
@@ -237,7 +258,7 @@ def rand_selector(rng, n, tags, pred_masks, allow, depth=0):
         name = sorted(tags)[int(rng.integers(len(tags)))]
         tid, arr = tags[name]
         return Sel(name, f'(STag {cnat(tid)})', set(int(x) for x in arr))
-    parts = [rand_selector(rng, n, tags, pred_masks, allow - {'default', 'all'}, depth + 1) for _ in range(int(rng.integers(1, 4)))]
+    parts = [rand_selector(rng, n, tags, pred_masks, allow - {'default', 'all'}, depth + 1) for _ in range(int(rng.integers(0, 4)))]
     kind = int(rng.integers(3))
     if kind == 2 and all(isinstance(p.py, (int, str)) and not isinstance(p.py, bool) for p in parts):
         py = set(p.py for p in parts)
@@ -276,14 +297,57 @@ class Context:
         self.predF = [((lambda x, d=d, c=c: x[d] < c), midf[d] < c) for d, c in enumerate(cf)]
         self.predE = [((lambda x, d=d, c=c: x[d] < c), midt[d] < c) for d, c in enumerate(cf)]
         self.predN = [((lambda x, d=d, c=c: x[d] < c), m.p[d] < c) for d, c in enumerate(cf)]
-        bt = {'ba': np.unique(rng.integers(0, nf, size=int(rng.integers(1, 4)))).astype(np.int32),
-              'bb': rng.integers(0, nf, size=int(rng.integers(1, 5))).astype(np.int32)}       # unsorted, duplicates
-        st = {'sa': np.unique(rng.integers(0, nt, size=int(rng.integers(1, 3)))).astype(np.int32),
-              'sb': rng.integers(0, nt, size=int(rng.integers(1, 4))).astype(np.int32)}
-        m = m.with_boundaries(bt).with_subdomains(st)
+        bfac = np.nonzero(m.f2t[1] == -1)[0]
+
+        def rarr(n, k, uniq=False):
+            a = rng.integers(0, n, size=int(rng.integers(1, k)))
+            return (np.unique(a) if uniq else a).astype(np.int32)
+        # histories of definitions: names are defined, REDEFINED (by an array or by a predicate), other names added in between;
+        # each step is (python dict for with_*, the index sets it denotes)
+        pF, mF = self.predF[int(rng.integers(len(self.predF)))]
+        pF_set = np.intersect1d(np.nonzero(mF)[0], bfac).astype(np.int32)        # predicates: boundary facets only (boundaries_only=True)
+        pE, mE = self.predE[int(rng.integers(len(self.predE)))]
+        histF = [({'ba': rarr(nf, 4, True), 'bb': rarr(nf, 5)}, None),
+                 ({'ba': rarr(nf, 4), 'bc': rarr(nf, 3)}, None),                 # 'ba' redefined, 'bc' new, 'bb' kept
+                 ({'bb': pF}, {'bb': pF_set}),                                  # 'bb' redefined by a predicate
+                 ({'bc': rarr(nf, 4, True)}, None)]                             # 'bc' redefined again
+        histE = [({'sa': rarr(nt, 3, True), 'sb': rarr(nt, 4)}, None),
+                 ({'sb': pE}, {'sb': np.nonzero(mE)[0].astype(np.int32)}),
+                 ({'sa': rarr(nt, 3), 'sc': rarr(nt, 3)}, None)]
+        self.defaults = False
+        try:                                     # default tags ('left', 'right', ...) that are then overridden
+            md = m.with_defaults()
+            if md.boundaries and 'left' in md.boundaries:
+                histF = [({k: np.asarray(v).astype(np.int32) for k, v in md.boundaries.items()}, None),
+                         ({'left': rarr(nf, 4, True)}, None)] + histF
+                m0 = md
+                self.defaults = True
+        except Exception:
+            pass
+        m_before = m
+        for i, (d, _) in enumerate(histF):
+            if i == 0 and self.defaults:
+                m = m0                           # the first step IS with_defaults()
+            else:
+                m = m.with_boundaries(d)
+        for d, _ in histE:
+            m = m.with_subdomains(d)
         self.m = m
-        self.tagsF = {k: (i, v) for i, (k, v) in enumerate(sorted(bt.items()))}
-        self.tagsE = {k: (i, v) for i, (k, v) in enumerate(sorted(st.items()))}
+        self.m_before = m_before
+        names_f = sorted({k for d, _ in histF for k in d})
+        names_e = sorted({k for d, _ in histE for k in d})
+        idf = {k: i for i, k in enumerate(names_f)}
+        ide = {k: i for i, k in enumerate(names_e)}
+        self.histF = [{idf[k]: np.asarray((den or d)[k] if not callable(d[k]) else den[k]) for k in d} for d, den in histF]
+        self.histE = [{ide[k]: np.asarray((den or d)[k] if not callable(d[k]) else den[k]) for k in d} for d, den in histE]
+        finalF, finalE = {}, {}
+        for d in self.histF:
+            finalF.update(d)
+        for d in self.histE:
+            finalE.update(d)
+        self.tagsF = {k: (idf[k], finalF[idf[k]]) for k in names_f}              # what every name must denote: its LAST definition
+        self.tagsE = {k: (ide[k], finalE[ide[k]]) for k in names_e}
+        self.last_pred = {'F': ('bb', pF), 'E': ('sb', pE)}
         self.elem = fac()
         self.basis = Basis(m, self.elem, intorder=2)
         e = self.elem
@@ -304,10 +368,10 @@ class Context:
         nv, ne, nf, nt, t, t2e, t2f = C04.topo_tables(m, self.dim, ed)
         dim3 = m.dim() == 3 and m.bndelem is not None
         f2e = np.asarray(m.f2e) if (dim3 and ed > 0) else np.zeros((0, 0), dtype=int)
-        tags = lambda d: clist([f'({cnat(i)}, {cnats(np.asarray(v).tolist())})' for i, v in sorted(d.values(), key=lambda z: z[0])])
+        tags = lambda hist: clist([clist([f'({cnat(i)}, {cnats(np.asarray(v).tolist())})' for i, v in sorted(d.items())]) for d in hist])
         return (f'(({cnat(self.dim)}, {cnat(nd)}, {cnat(ed)}, {cnat(fd)}, {cnat(idd)}), ({cnat(nv)}, {cnat(ne)}, {cnat(nf)}, {cnat(nt)}), '
                 f'({crows(t)}, {crows(t2e)}, {crows(t2f)}), ({ccols(m.facets)}, {crows(f2e)}, {cbool(dim3 and ed > 0)}), '
-                f'({cnats(m.boundary_facets().tolist())}, {cnats([self.name_ids[x] for x in self.names])}, {tags(self.tagsF)}, {tags(self.tagsE)}))')
+                f'({cnats(m.boundary_facets().tolist())}, {cnats([self.name_ids[x] for x in self.names])}, {tags(self.histF)}, {tags(self.histE)}))')
 
 
 CORR_DEFS = '''
@@ -322,7 +386,7 @@ Inductive query :=
 | QComplF (s : sel).
 Definition ctxt := ((nat * nat * nat * nat * nat) * (nat * nat * nat * nat) * (list (list nat) * list (list nat) * list (list nat)) *
                     (list (list nat) * list (list nat) * bool) *
-                    (list nat * list nat * list (nat * list nat) * list (nat * list nat)))%type.
+                    (list nat * list nat * list (list (nat * list nat)) * list (list (nat * list nat))))%type.
 Definition lookup (tb : list (nat * list nat)) (k : nat) : option (list nat) :=
   match find (fun kv => Nat.eqb (fst kv) k) tb with Some kv => Some (snd kv) | None => None end.
 Definition run (c : ctxt * list query) : list (option (list nat)) :=
@@ -340,8 +404,8 @@ Definition run (c : ctxt * list query) : list (option (list nat)) :=
         let w := match mode with 1 => keep D dofnames offs v names | 2 => drop D dofnames offs v names | _ => v end in
         enc_dict (view_by_name D w dofnames boffs kd)
     end in
-  let nF := normalize nf (Some bfac) false (lookup tagsF) in
-  let nE := normalize nt None true (lookup tagsE) in
+  let nF := normalize nf (Some bfac) false (tag_lookup (tag_history tagsF)) in
+  let nE := normalize nt None true (tag_lookup (tag_history tagsE)) in
   let nN := normalize nv None false (fun _ => None) in
   map (fun q =>
     match q with
@@ -561,6 +625,43 @@ def oracle_context(ctx, c, rng):
                          f'{c.name} on {type(m).__name__}: get_dofs().drop([{nm!r}]).{kd.lower()} = {sorted(got.items())[:4]} (name ids '
                          f'{c.name_ids}) but the DOFs carrying each surviving name are {sorted(want.items())[:4]}',
                          dict(data, dropped=nm, kind_of_dofs=kd, dofnames=c.names))
+    # re-tagging: after a history of (re)definitions every name denotes its LAST definition: name == index array == predicate
+    for kw, tags in (('facets', c.tagsF), ('elements', c.tagsE)):
+        for nm, (tid, arr) in sorted(tags.items()):
+            ctx.count(('retag', c.kind, c.name, nm, m.t.tolist()), nontrivial=True)
+            try:
+                by_name = b.get_dofs(**{kw: nm}).flatten().tolist()
+            except Exception as ex:
+                by_name = f'{type(ex).__name__}: {ex}'
+            by_arr = b.get_dofs(**{kw: np.asarray(arr, dtype=np.int32)}).flatten().tolist()
+            stored = (m.boundaries if kw == 'facets' else m.subdomains).get(nm)
+            if by_name != by_arr or stored is None or sorted(set(np.asarray(stored).tolist())) != sorted(set(np.asarray(arr).tolist())):
+                ctx.fail(f'retag:{kw}', f'{type(m).__name__}: the tag {nm!r} was (re)defined last as {np.asarray(arr).tolist()} but the mesh stores '
+                         f'{None if stored is None else np.asarray(stored).tolist()}; get_dofs({kw}={nm!r}) and get_dofs({kw}=that array) '
+                         f'differ: the name, the index array and the predicate must denote the same entities',
+                         dict(data, tag=nm, last_definition=np.asarray(arr).tolist()))
+    nmF, pF = c.last_pred['F']
+    bfacets = [f for f in range(m.facets.shape[1]) if m.f2t[1, f] == -1]
+    by_pred = b.get_dofs(np.intersect1d(m.facets_satisfying(pF), bfacets).astype(np.int32)).flatten().tolist()
+    if b.get_dofs(nmF).flatten().tolist() != by_pred:
+        ctx.fail('retag:facets', f'{type(m).__name__}: tag {nmF!r} last defined by a predicate (boundary facets only) does not select the '
+                 'facets the predicate selects', dict(data, tag=nmF))
+    nmE, pE = c.last_pred['E']
+    if b.get_dofs(elements=nmE).flatten().tolist() != b.get_dofs(elements=pE).flatten().tolist():
+        ctx.fail('retag:elements', f'{type(m).__name__}: tag {nmE!r} last defined by a predicate does not select the cells the predicate selects',
+                 dict(data, tag=nmE))
+    if c.m_before.boundaries is not None or c.m_before.subdomains is not None:
+        ctx.fail('retag:operand', 'with_boundaries / with_subdomains modified the mesh they were called on', data)
+    # the empty list / tuple / set denotes the empty set
+    for kw, val in (('facets', []), ('facets', ()), ('facets', set()), ('elements', []), ('elements', ()), ('nodes', [])):
+        ctx.count(('empty', c.kind, c.name, kw, type(val).__name__), nontrivial=False)
+        try:
+            got = b.get_dofs(**{kw: val}).flatten().tolist()
+        except Exception as ex:
+            got = f'{type(ex).__name__}: {ex}'
+        if got != []:
+            ctx.fail('selector:empty-collection', f'get_dofs({kw}={val!r}) on {type(m).__name__}/{c.name} gives {got!r:.80}; the empty '
+                     f'collection denotes the empty set of entities, the query must return no DOFs', dict(data, selector=repr(val), arg=kw))
     # elements / nodes
     nt = m.t.shape[1]
     E = rng.integers(0, nt, size=int(rng.integers(1, 4)))
@@ -682,7 +783,8 @@ def run(ctx):
                                   'got': r, 'want': want})
                 except Exception as ex:      # an accepted selector form must not raise
                     outs.append('None')
-                    ctx.fail(f'elem={name}:{kind}:query-exception', f'get_dofs raises {type(ex).__name__}: {ex} for {desc}',
+                    ctx.fail('selector:empty-collection' if 'need at least one array' in str(ex) else f'elem={name}:{kind}:query-exception',
+                             f'get_dofs raises {type(ex).__name__}: {ex} for {desc}',
                              {'kind': kind, 'element': name, 'p': c.m.p.tolist(), 't': c.m.t.tolist(), 'query': repr(desc)})
             cases.append((f'({c.coq()}, {clist([q[0] for q in qs])})', clist(outs), (kind, name, [q[2] for q in qs], c.m.t.tolist())))
             if len(ctx.cov['samples']) < 4:
